@@ -951,9 +951,15 @@ type c01CountReader struct {
 	r     io.Reader
 	n     int64
 	chunk int
+	calls int
 }
 
 func (c *c01CountReader) Read(p []byte) (int, error) {
+	// chunk 7 (the "counting" reader of the entry-point table) also answers every third call with
+	// (0, nil): nothing to hand over yet, as the io.Reader contract allows
+	if c.calls++; c.chunk == 7 && c.calls%3 == 2 && len(p) > 0 {
+		return 0, nil
+	}
 	if c.chunk > 0 && len(p) > c.chunk {
 		p = p[:c.chunk]
 	}
